@@ -65,8 +65,9 @@ type Doc struct {
 // Filter is `{Field: {Op: value}}`.
 type Filter struct {
 	Field string `json:"field"` // a (name/title), b (age/rating), u (email)
-	Op    string `json:"op"`    // _eq _ne _ge _lt
+	Op    string `json:"op"`    // _eq _ne _ge _lt _in _nin _or (the last three over the two values V, V2)
 	V     int    `json:"v"`
+	V2    int    `json:"v2,omitempty"`
 }
 
 var colNames = []string{"Author", "Book"}
@@ -179,28 +180,34 @@ func jsonObj(f []kv) string {
 // gql renders the filter for a collection (GraphQL filter object syntax, also accepted by the
 // collection API's string filters).
 func (f Filter) gql(col int) string {
-	var field string
-	var v any
-	switch f.Field {
-	case "b":
-		if col%2 == 0 {
-			field, v = "age", int64(f.V)
-		} else {
-			field, v = "rating", float64(f.V)*0.5
+	val := func(n int) (string, any) {
+		switch f.Field {
+		case "b":
+			if col%2 == 0 {
+				return "age", int64(n)
+			}
+			return "rating", float64(n) * 0.5
+		case "u":
+			if col%2 == 0 {
+				return "email", "e" + strconv.Itoa(n) + "@x"
+			}
+			return "title", "n" + strconv.Itoa(n)
 		}
-	case "u":
-		if col%2 == 0 {
-			field, v = "email", "e"+strconv.Itoa(f.V)+"@x"
-		} else {
-			field, v = "title", "n"+strconv.Itoa(f.V)
-		}
-	default:
-		field, v = "name", "n"+strconv.Itoa(f.V)
 		if col%2 == 1 {
-			field = "title"
+			return "title", "n" + strconv.Itoa(n)
 		}
+		return "name", "n" + strconv.Itoa(n)
 	}
+	field, v := val(f.V)
+	_, v2 := val(f.V2)
 	op := f.Op
+	switch op {
+	case "_in", "_nin":
+		// a list of two values: an index-served _in scans the index once per listed value
+		return "{" + field + ": {" + op + ": [" + lit(v) + ", " + lit(v2) + "]}}"
+	case "_or":
+		return "{_or: [{" + field + ": {_eq: " + lit(v) + "}}, {" + field + ": {_eq: " + lit(v2) + "}}]}"
+	}
 	if _, isStr := v.(string); isStr && (op == "_ge" || op == "_lt") {
 		op = "_ne"
 	}
@@ -253,15 +260,19 @@ func genDocs(t *rapid.T, col, lo, hi int) []Doc {
 func genFilter(t *rapid.T, col int) *Filter {
 	f := &Filter{
 		Field: rapid.SampledFrom([]string{"a", "a", "b", "b", "u"}).Draw(t, "ffield"),
-		Op:    rapid.SampledFrom([]string{"_eq", "_ge", "_lt", "_ne", "_ge"}).Draw(t, "fop"),
+		Op:    rapid.SampledFrom([]string{"_eq", "_ge", "_lt", "_ne", "_ge", "_in", "_in", "_or", "_nin"}).Draw(t, "fop"),
 	}
+	hi := 11
 	switch f.Field {
 	case "a":
-		f.V = rapid.IntRange(0, 3).Draw(t, "fv")
+		hi = 3
 	case "b":
-		f.V = rapid.IntRange(0, 5).Draw(t, "fv")
-	default:
-		f.V = rapid.IntRange(0, 11).Draw(t, "fv")
+		hi = 5
+	}
+	f.V = rapid.IntRange(0, hi).Draw(t, "fv")
+	switch f.Op {
+	case "_in", "_nin", "_or":
+		f.V2 = rapid.IntRange(0, hi).Draw(t, "fv2")
 	}
 	return f
 }
@@ -389,6 +400,32 @@ func drawCase(t *rapid.T) Case {
 		c.Prior = append(c.Prior, local)
 		c.Op.N = 1
 	}
+	return c
+}
+
+// drawFilteredCase: contents with several authors and books, a few further operations, then a
+// filtered update, delete or upsert whose filter is on an indexed field (name/title or the unique
+// email) and mostly a two-value _in list or an _or of two equalities.
+func drawFilteredCase(t *rapid.T) Case {
+	c := Case{Branch: rapid.IntRange(0, 5).Draw(t, "branch") == 0, Prior: []Op{}}
+	c.Prior = append(c.Prior, Op{Kind: "createMany", Route: "api", Col: 0, Docs: genDocs(t, 0, 3, 5)})
+	c.Prior = append(c.Prior, Op{Kind: "createMany", Route: "gql", Col: 1, Docs: genDocs(t, 1, 2, 4)})
+	n := rapid.IntRange(0, 3).Draw(t, "nprior")
+	for i := 0; i < n; i++ {
+		k := rapid.SampledFrom([]string{"createOne", "updateID", "deleteID", "createIndex", "updateID", "merge"}).Draw(t, "priorkind")
+		c.Prior = append(c.Prior, genOp(t, k, 0))
+	}
+	kind := rapid.SampledFrom([]string{"updateFilter", "deleteFilter", "updateFilter", "deleteFilter", "upsert"}).Draw(t, "kind")
+	c.Op = genOp(t, kind, 0)
+	f := c.Op.Filter
+	f.Field = rapid.SampledFrom([]string{"a", "a", "u", "b"}).Draw(t, "ffield2")
+	f.Op = rapid.SampledFrom([]string{"_in", "_in", "_or", "_in", "_nin", "_eq", "_ne"}).Draw(t, "fop2")
+	hi := 3
+	if f.Field == "u" {
+		hi = 6
+	}
+	f.V = rapid.IntRange(0, hi).Draw(t, "fv")
+	f.V2 = rapid.IntRange(0, hi).Draw(t, "fv2")
 	return c
 }
 
